@@ -979,8 +979,14 @@ class ZeroCase(LegacyHooks):
         r = LegacyHooks.decide(self, cond, st)
         if r is not None:
             return r
+        if isinstance(cond, (AndC, OrC, NotC)):
+            return None       # decomposed by the interpreter, asked again per conjunct
         if isinstance(cond, Cmp) and cond.op in ('==', '!=') and isinstance(cond.a, Sym) and \
                 cond.b == Sym.const(0):
+            # the case fixes which parameters are zero: substitute and look at what is left
+            left = cond.a.subs({('v', k): Sym.const(0) for k, z in self.zero.items() if z})
+            if left.is_const():
+                return (left.const_value() == 0) == (cond.op == '==')
             at = cond.a.as_atom()
             neg_at = (-cond.a).as_atom()
             at = at or neg_at
@@ -1001,6 +1007,7 @@ def check_lm_suppression(ck, prog):
         raise AnalysisError('doLowLevelMove signature changed')
     r1, s1, a1, r2, s2, a2 = names
     n = 0
+    pending = []
     for bits in itertools.product((True, False), repeat=6):
         zero = dict(zip(names, bits))
         idle1 = (zero[r1] and zero[a1]) or zero[s1]
@@ -1011,6 +1018,11 @@ def check_lm_suppression(ck, prog):
         sends = {bool(transports(o.state.effects)) for o in outs if o.kind == 'return'}
         n += 1
         case = ', '.join('%s%s0' % (k, '=' if z else '!=') for k, z in zero.items())
+        if hk.undecided and sends != {want_send} and want_send in sends:
+            # a relation between two non-zero parameters (rate == accel) is not fixed by the
+            # zero / non-zero case: both outcomes were explored, the expected one among them
+            pending.append((case, hk.undecided[0]))
+            continue
         ck.ob('C06-D6-lm-suppression', 'doLowLevelMove[%s]' % case, sends == {want_send},
               'doLowLevelMove with %s %s; a low-level move must be suppressed exactly when neither '
               'axis can move (rate and accel both zero, or no steps, on both axes)%s'
@@ -1020,6 +1032,10 @@ def check_lm_suppression(ck, prog):
                  '; undecided test: %s' % hk.undecided[0] if hk.undecided else ''),
               fn.loc(), key='ebb_motion.doLowLevelMove::suppression')
     ck.floor('LM zero/non-zero cases', n, 64)
+    if pending and not ck.violations:
+        raise AnalysisError('doLowLevelMove: the suppression test compares two parameters with '
+                            'each other (%r); %d of 64 zero/non-zero cases do not decide it'
+                            % (pending[0][1], len(pending)))
 
 
 # ---------------------------------------------------------------------------- D7 no port
